@@ -9,6 +9,7 @@ from vf import canon as cn
 from vf import progdiff as pd
 from vf import refworker as rw
 from vf.gen import prog as gp
+from vf.gen import values as gv
 from vf.pool import ALL_VERSIONS, HOSTS
 from vf.run import Result
 
@@ -16,10 +17,26 @@ NATIVE_REPR = re.compile(r'<code object (\S+) at 0x[0-9a-f]+, file "(.*?)", line
 PORTABLE_REPR = re.compile(r'<Code\w+ code object (\S+) at 0x[0-9a-f]+, file (.*?)>, line (\d+)')
 
 
+def _no_linebreaks(t):
+    k = t[0]
+    if k == "t":
+        raw = bytes(b if b >= 0x20 and b != 0x7F else 0x78 for b in rw.unhx(t[1]))
+        return ["t", rw.hx(raw)]
+    if k == "=":
+        return ["=", t[1], _no_linebreaks(t[2])]
+    if k in ("T", "L", "S", "Z"):
+        return [k, [_no_linebreaks(x) for x in t[1]]]
+    if k == "D":
+        return [k, [[_no_linebreaks(a), _no_linebreaks(b)] for a, b in t[1]]]
+    return t
+
+
 def norm_text(s):
     s = NATIVE_REPR.sub(lambda m: "<code %s file %s line %s>" % (m.group(1), m.group(2), m.group(3)), s)
     s = PORTABLE_REPR.sub(lambda m: "<code %s file %s line %s>" % (m.group(1), m.group(2), m.group(3)), s)
     s = re.sub(r"0x[0-9a-f]{6,}", "0xX", s)
+    # repr() escapes a character or not depending on the host's Unicode database
+    s = s.encode("ascii", "backslashreplace").decode("ascii")
     return s
 
 
@@ -58,6 +75,8 @@ def norm_dis(dis):
                 ins2.append(i)
             c2["instrs"] = ins2
         c2.pop("instrs_tb", None)
+        if isinstance(c2.get("instrs_gi"), dict) and "instrs" in c2["instrs_gi"]:
+            c2["instrs_gi"] = norm_dis([{"instrs": c2["instrs_gi"]["instrs"]}])[0]["instrs"]
         if "co_lines" in c2:
             # 3.11 does not merge adjacent equal-line ranges, 3.12+ and xdis do: compare per code unit
             c2["co_lines"] = sorted(pd.per_unit(c2["co_lines"]).items())
@@ -68,11 +87,11 @@ def norm_dis(dis):
 class C07:
     id = "C07"
     rule = ("case = (bytecode file of version 2.7/3.6-3.13 from G-PROG / stdlib sample, or a corpus file) x a drawn "
-            "set of (host, route) pairs out of hosts 3.8-3.13 x {load_module, portable unmarshaller on the payload}; "
+            "set of (host, route) pairs out of hosts 3.8-3.13 x {load_module, portable unmarshaller on the payload, codeType2Portable of the native object}; "
             "always included: the file's own host with BOTH routes (native marshal fast path + native code object "
             "passed to Bytecode vs portable code object) when the version has a host; metamorphic oracle: canonical "
             "code tree, instruction streams (opcode, operand, argval, argrepr, jump-target flags, line starts, labels) "
-            "and the normalised classic listing are identical for every pair; non-trivial = comparison with the "
+            "and the normalised listing (format drawn from classic / bytes / extended; xasm names code objects after id() values and is not comparable) are identical for every pair; non-trivial = comparison with the "
             "native path on one side and the portable path on the other; distinct = (file, pair)")
     assumptions = ["normalised away: object addresses, the host banner, code-object repr spelling (native vs portable, "
                    "which the repo's own tests equate), element order inside set reprs (host hash function)"]
@@ -85,10 +104,14 @@ class C07:
         @st.composite
         def case(draw):
             v = draw(st.sampled_from(ALL_VERSIONS + ["3.8", "3.9", "3.10", "3.11", "3.12", "3.13"]))
-            k = draw(st.sampled_from(["prog", "prog", "stdlib"]))
+            k = draw(st.sampled_from(["prog", "prog", "stdlib", "values"]))
             extra = draw(st.lists(st.sampled_from(HOSTS), min_size=1, max_size=2, unique=True))
-            c = {"k": k, "v": v, "hosts": extra}
-            if k == "prog":
+            c = {"k": k, "v": v, "hosts": extra, "fmt": draw(st.sampled_from(["classic", "classic", "extended", "bytes"]))}
+            if k == "values":
+                # constants with a sharing plan, marshalled by the real interpreter (FLAG_REF / back-references
+                # on every object kind: what compilers emit only rarely)
+                c["values"] = draw(gv.shared_values(v.startswith("2.")))
+            elif k == "prog":
                 c["src"] = draw(gp.programs(v, size=draw(st.integers(2, 4))))
             else:
                 c["path"] = draw(st.sampled_from(pd.stdlib_files(ctx, v, max_size)))
@@ -117,10 +140,24 @@ class C07:
             m = re.match(r"bytecode_(\d\.\d+)/", case["path"])
             if m and m.group(1) in HOSTS:
                 own = m.group(1)
-        elif k in ("prog", "stdlib") and case.get("v") in ALL_VERSIONS:
+        elif k in ("prog", "stdlib", "values") and case.get("v") in ALL_VERSIONS:
             v = case["v"]
-            ref = ctx.pool.ref(v).call("compile" if k == "prog" else "compile_file", dis=False,
-                                       **({"src": case["src"]} if k == "prog" else {"path": case["path"]}))
+            if k == "values":
+                try:
+                    vals = [gv.expand(t) for t in case["values"]]
+                except Exception:
+                    res.reject = "malformed-case"
+                    return res
+                if v == "2.7":
+                    # xdis prints Python 2 unicode constants unescaped; a raw line break inside one, together with
+                    # the host-dependent element order of sets, moves text between listing lines (not C07's subject)
+                    vals = [_no_linebreaks(t) for t in vals]
+                ref = ctx.pool.ref(v).call("dumps_code", values=vals, mver=2 if v == "2.7" else 4)
+                if "reject" not in ref:
+                    ref["header"] = ctx.pool.ref(v).call("compile", src="pass", dis=False)["header"]
+            else:
+                ref = ctx.pool.ref(v).call("compile" if k == "prog" else "compile_file", dis=False,
+                                           **({"src": case["src"]} if k == "prog" else {"path": case["path"]}))
             if "reject" in ref:
                 res.reject = "compiler-rejects:" + ref["reject"].split(":")[0]
                 return res
@@ -132,7 +169,7 @@ class C07:
             return res
         pairs = []
         if own:
-            pairs += [(own, "load_module"), (own, "portable")]
+            pairs += [(own, "load_module"), (own, "portable"), (own, "native2portable")]
         for h in hosts:
             if (h, "load_module") not in pairs:
                 pairs.append((h, "load_module"))
@@ -142,7 +179,7 @@ class C07:
         outs = []
         for h, route in pairs:
             r = ctx.pool.host(h).call_raw("x_c07", data=rw.hx(data), route=route, listing=(route == "load_module"),
-                                          max_code=max_code)
+                                          max_code=max_code, fmt=case.get("fmt", "classic"))
             outs.append((h, route, r))
         res.classes = ["file:" + (case.get("v") or label.split("/")[0])] + ["pair:%s/%s" % (h, r) for h, r, _ in outs]
         res.sample = {"file": label, "pairs": ["%s/%s" % (h, r) for h, r, _ in outs]}
@@ -167,7 +204,7 @@ class C07:
                 continue
             o = r["r"]
             if mixed:
-                nt.append([label if k != "prog" else case["src"], tag])
+                nt.append([label if k not in ("prog", "values") else (case.get("src") or case.get("values")), tag])
             d = cn.diff(b["tree"], o["tree"])
             if d:
                 res.fail("C07|%s|tree|%s|%s|%s" % (sigp, cn.field_of(d[0]) or "const", pd.kshort(d[1]), pd.kshort(d[2])),
@@ -180,6 +217,11 @@ class C07:
                 res.fail("C07|%s|stream|%s" % (sigp, what), "%s: decoded instruction data differs (%s): %s" % (label, tag, msg))
             if "listing" in b and "listing" in o:
                 la, lb = norm_listing(b["listing"]), norm_listing(o["listing"])
+                if case.get("fmt") == "xasm":
+                    # xasm names code objects after id(co_code) and emits them in an order that depends on those
+                    # names: compare the sections as a multiset of lines with the generated names neutralised
+                    la = "\n".join(sorted(re.sub(r"\w+_0xX(_\d+)?", "NAME", ln) for ln in la.split("\n")))
+                    lb = "\n".join(sorted(re.sub(r"\w+_0xX(_\d+)?", "NAME", ln) for ln in lb.split("\n")))
                 if la != lb:
                     a, c2 = la.split("\n"), lb.split("\n")
                     k2 = next((i for i in range(min(len(a), len(c2))) if a[i] != c2[i]), min(len(a), len(c2)))
